@@ -318,7 +318,8 @@ def _degenerate_if(node):
 def program_features(source):
     """Static facts about a program that known-finding entries may constrain."""
     feats = {"for": False, "while": False, "if": False, "boolop": False, "loop_else": False,
-             "boolop_nontoplevel": False, "for_target_escapes": False, "degenerate_empty": False}
+             "boolop_nontoplevel": False, "for_target_escapes": False, "degenerate_empty": False,
+             "for_tuple_target": False}
     try:
         tree = ast.parse(source)
     except SyntaxError:
@@ -330,6 +331,8 @@ def program_features(source):
     for node in ast.walk(tree):
         if isinstance(node, ast.For):
             feats["for"] = True
+            if not isinstance(node.target, ast.Name):
+                feats["for_tuple_target"] = True
             if node.orelse:
                 feats["loop_else"] = True
             if _effectively_empty(node.body) and False:
